@@ -1,6 +1,6 @@
 (** C05 — Sensor update is the Kalman correction, for any number of readings. *)
 From mathcomp Require Import all_ssreflect all_algebra.
-From FV Require Import Theory.Psd gen.EkfA Proofs.Ekf.
+From FV Require Import Theory.Psd Theory.Diag gen.EkfA Proofs.Ekf.
 Set Implicit Arguments. Unset Strict Implicit. Unset Printing Implicit Defensive.
 Import GRing.Theory Num.Theory.
 Local Open Scope ring_scope.
@@ -36,6 +36,13 @@ Theorem C05_posterior_le_prior : forall (F : realFieldType) (n m : nat)
   valid P -> sym Q -> pd Q -> psd (P - (py_sensor_model rm x P z hx H Q).1.2).
 Proof. exact py_update_le_prior. Qed.
 
+(** the premises [sym Q], [pd Q] are met by per-reading noise values that are positive: the named covariance
+    container assembles them (Props/C05_glue.v) to a diagonal matrix *)
+Theorem C05_positive_diagonal_noise_is_pd : forall (F : realFieldType) (m : nat) (d : 'rV[F]_m),
+  (forall i, 0 < d 0 i) -> sym (diag_mx d) /\ pd (diag_mx d).
+Proof. by move=> F m d h; split; [exact: diag_sym | exact: diag_pd]. Qed.
+
 Print Assumptions C05_update_spec.
+Print Assumptions C05_positive_diagonal_noise_is_pd.
 Print Assumptions C05_posterior_valid.
 Print Assumptions C05_posterior_le_prior.
